@@ -188,8 +188,9 @@ CHECKS = {
                        "(it finishes after the restart); the stale _lock is removed and a new Pipestance is attached with the same invocation (Reset + RestartLocalJobs, what mrp does).  Oracle: "
                        "the re-attach is accepted, the run completes, the final outputs equal the reference model's, no job whose completion was recorded before an interruption is handed to the "
                        "job manager again, every job still receives the arguments the model predicts, and the outputs record after the final cleanup equals that of an undisturbed run. Exploration."),
-        "level_note": ("The real process level (SIGKILL / SIGTERM of mrp and of job processes at generated system-call ordinals, lock release by the signal handler) needs the E2 engine, which is "
-                       "not built: the claim here is about the re-attach logic, not about signal handling."),
+        "level_note": ("E1 decides the re-attach logic at the granularity of harness actions; the E2 unit (TestE2Interrupt) sends SIGTERM / SIGINT / SIGKILL to the real mrp (or its process "
+                       "group) after a generated number of job starts and restarts it: lock released after a handled signal, restart completes, outputs equal the model's, no job with a "
+                       "_complete marker runs again.  Crash points at system-call granularity (strace injection) are not built."),
         "rule": ("rapid program + schedule + interruption points and fates; non-trivial: an interruption fell strictly inside the run (>= 1 job finished, >= 1 in flight); distinct by hash(program, history); "
                  "classes: fate of in-flight jobs, number of interruptions, during-cleanup / after-cleanup."),
         "assumptions": _SEM_ASSUME + ["a job that is running records its pid in _jobinfo and the job manager removes _queued_locally when it starts the process, as the local job manager and mrjob do"],
@@ -210,7 +211,8 @@ CHECKS = {
                        "mrp gives up; after re-attaching without the fault only work that had not completed (for rejected outputs: the fork that produced them) is executed, the run completes and "
                        "the final outputs equal the model's; then optionally a second fault elsewhere. Exploration."),
         "level_note": ("Exit codes, signals and the python adapter's own error paths are what mrjob / martian_shell.py turn into _errors / _assert; exercising those processes, mrp's exit status "
-                       "and --autoretry needs the E2 engine, which is not built."),
+                       "and --autoretry is done by the E2 unit (TestE2Faults: exit code, SIGKILL of the stage process, error pipe, ASSERT:, broken _outs / _stage_defs; mrp exits non-zero, "
+                       "names the stage (an assertion: carries its message), no dependent ran, retry budget respected, restart without the fault completes).  The python adapter is not exercised."),
         "rule": ("rapid program + schedule + site + manifestation; non-trivial: the failed call has >= 1 dependent and >= 1 independent call; distinct by hash(program, history); classes: kind of "
                  "failure, phase of the failing job, has-dependents, has-independents."),
         "assumptions": _SEM_ASSUME,
@@ -306,7 +308,7 @@ CHECKS = {
                        "tracks); every path listed in any _vdrkill is gone and lies inside the pipestance; every written entry that is gone is covered by a reported path; each fork's report "
                        "count and size equal the number and lstat sizes (recorded when the job finished) of the entries written under that fork that are gone; a sentinel directory next to "
                        "the pipestance is byte-identical. Exploration."),
-        "level_note": "Interruption and restart between partial and final cleanup is part of the C05 machinery (not built yet).",
+        "level_note": "A third of the E1 runs make one job fail after it wrote its files and restart the pipestance (reset of the attempt's directory, partial reports across the restart); the E2 unit (TestE2Files) checks tmp directories, chunk files, survivors and reported paths under the real mrp with VDR racing the jobs; exact count/size accounting is checked on E1 only.",
         "rule": "as C04; non-trivial: VDR enabled, >= 1 written entry removed and >= 1 file kept by a top-level output or retain; classes: mode, must-go-files, kept-and-removed.",
         "assumptions": _SEM_ASSUME + ["stages obey the contract: a returned path names a file the job wrote itself under its own files directory"],
         "units": [U("props/run", "TestRunFiles", (600, 10), (12000, 10), env={"VERIF_ONLY": "C14"}),
